@@ -102,7 +102,7 @@ UrlSecure(s) == ~HasChar(s, NUL)        \* also LF TAB CR and the double quote: 
 (* Paths *)
 FsPath(sel) == LET p == RootQ \o sel IN IF p[Len(p)] = "/" THEN SubSeq(p, 1, Len(p) - 1) ELSE p
 
-NoStat == [k |-> "none", f |-> "none", out |-> FALSE, err |-> "ENOENT"]
+NoStat == [k |-> "none", f |-> "none", out |-> FALSE, err |-> "ENOENT", at |-> <<>>]
 \* vfs.stat(selector) on the real tree.  A NUL makes os.stat raise ValueError without a system call.
 StatSel(sel) == IF HasChar(sel, NUL) THEN [NoStat EXCEPT !.err = "EINVAL"] ELSE StatP(FsPath(sel))
 
@@ -152,8 +152,14 @@ ZipStat(sel) ==
     LET m == Member(sel) IN
     IF m \in DOMAIN ZipMembers
     THEN [k |-> ZipMembers[m].k, f |-> IF ZipMembers[m].f = "exec" THEN "plain" ELSE ZipMembers[m].f,
-          out |-> FALSE, err |-> "ok"]
+          out |-> FALSE, err |-> "ok", at |-> m]
     ELSE NoStat
+\* names VFSZip.listdir returns for the member directory m
+ZipChildren(m) ==
+    LET pre == IF m = <<>> THEN <<>> ELSE m \o <<"/">>
+    IN {SubSeq(x, Len(pre) + 1, Len(x)) :
+          x \in {x \in DOMAIN ZipMembers : /\ x # m /\ x # <<>> /\ StartsWithQ(x, pre)
+                                           /\ ~HasChar(SubSeq(x, Len(pre) + 1, Len(x)), "/")}}
 
 VStat(vfs, sel) == IF vfs = "real" THEN StatSel(sel) ELSE ZipStat(sel)
 RealOnlyGuard(vfs) == vfs = "real" \/ ZipCountsAsReal
@@ -182,6 +188,13 @@ MaildirMsgResp(s) == IF s.k = "none" THEN "noreply"                 \* NoSuchMai
 MboxMsgResp(s)    == IF s.k = "none" THEN "noreply"
                      ELSE IF s.k = "dir" THEN "ioerror"             \* open(.., "rb+") on a directory
                      ELSE IF s.f = "mbox" THEN "ok" ELSE "noreply"  \* StopIteration: no such message
+
+\* DirHandler.prep_entries resolves every child through the whole handler chain under the selector
+\* base + "/" + name: if one child selector does not pass the filter (the directory was asked for as
+\* "/k/." or "/k/"), FileNotFound escapes and the whole listing is answered as not-found
+DirResp(d, names) ==
+    LET base == IF d = <<"/">> THEN <<>> ELSE d
+    IN IF \E n \in names : ~IsSecure(base \o <<"/">> \o n) THEN "notfound" ELSE "ok"
 
 RECURSIVE Dispatch(_, _, _, _)
 Dispatch(d, list, vfs, all) ==
@@ -240,6 +253,8 @@ Dispatch(d, list, vfs, all) ==
            [] h \in {"MaildirFolderHandler", "MBoxFolderHandler", "PYGHandler"} ->
                   Outcome(h, h, IF vfs = "real" THEN "ok" ELSE "any", d, used, vfs # "real")
            [] h = "ExecHandler" -> Outcome(h, h, "any", d, used, vfs # "real")
+           [] h \in {"UMNDirHandler", "DirHandler"} ->
+                  Outcome(h, h, DirResp(d, IF vfs = "real" THEN Children(s0.at) ELSE ZipChildren(s0.at)), d, used, FALSE)
            [] OTHER -> Outcome(h, h, "ok", d, used, FALSE)
 
 HandlerList(hl) == IF hl = "full" THEN FullList ELSE DefaultList
